@@ -575,6 +575,13 @@ def isLowerHex (c : Char) : Bool := ('0' ≤ c && c ≤ '9') || ('a' ≤ c && c 
 /-- a separator that cannot be confused with the `\xNN` notation -/
 def SafeSep (sep : Str) : Prop := ∀ c ∈ sep, c ≠ '\\' ∧ c ≠ 'x' ∧ isLowerHex c = false
 
+/-- separators and the wide notation: either all their characters are below U+0100 (then no
+`\uNNNN` / `\UNNNNNNNN` is ever written), or none of them is `u` or `U` -/
+def WideOk (d eq : Str) : Prop :=
+  (∀ c ∈ d ++ eq, c.toNat < 0x100) ∨ (∀ c ∈ d ++ eq, c ≠ 'u' ∧ c ≠ 'U')
+
+instance (d eq : Str) : Decidable (WideOk d eq) := by unfold WideOk; infer_instance
+
 instance (sep : Str) : Decidable (SafeSep sep) := by unfold SafeSep; infer_instance
 
 theorem hexDigit_facts : ∀ k : Fin 16,
@@ -585,30 +592,88 @@ theorem hexDigit_val (k : Nat) (h : k < 16) : hexVal (hexDigit k) = some k := (h
 theorem hexDigit_ascii (k : Nat) (h : k < 16) : (hexDigit k).toNat < 128 := (hexDigit_facts ⟨k, h⟩).2.1
 theorem hexDigit_lower (k : Nat) (h : k < 16) : isLowerHex (hexDigit k) = true := (hexDigit_facts ⟨k, h⟩).2.2.1
 
-theorem toBytes_ascii (s : Str) (h : ∀ c ∈ s, c.toNat < 128) : toBytes s = s := by
+theorem hex2_digits (n : Nat) (h : n < 256) : ∀ c ∈ hex2 n, ∃ k, k < 16 ∧ c = hexDigit k := by
+  intro c hc
+  simp only [hex2, List.mem_cons, List.not_mem_nil, or_false] at hc
+  rcases hc with rfl | rfl
+  · exact ⟨n / 16, by omega, rfl⟩
+  · exact ⟨n % 16, by omega, rfl⟩
+
+theorem hex4_digits (n : Nat) : ∀ c ∈ hex4 n, ∃ k, k < 16 ∧ c = hexDigit k := by
+  intro c hc
+  simp only [hex4, List.mem_cons, List.not_mem_nil, or_false] at hc
+  rcases hc with rfl | rfl | rfl | rfl <;> exact ⟨_, Nat.mod_lt _ (by decide), rfl⟩
+
+theorem hex8_digits (n : Nat) : ∀ c ∈ hex8 n, ∃ k, k < 16 ∧ c = hexDigit k := by
+  intro c hc
+  simp only [hex8, List.mem_cons, List.not_mem_nil, or_false] at hc
+  rcases hc with rfl | rfl | rfl | rfl | rfl | rfl | rfl | rfl <;> exact ⟨_, Nat.mod_lt _ (by decide), rfl⟩
+
+/-- the characters of an escape notation: backslash, `x`, hex digits, and `u`/`U` above U+00FF only -/
+theorem mem_escNote (n : Nat) (c : Char) (h : c ∈ escNote n) :
+    c = '\\' ∨ c = 'x' ∨ (∃ k, k < 16 ∧ c = hexDigit k) ∨ ((c = 'u' ∨ c = 'U') ∧ 0x100 ≤ n) := by
+  unfold escNote at h
+  split at h
+  · rename_i hn
+    rcases List.mem_cons.1 h with rfl | h
+    · left; rfl
+    · rcases List.mem_cons.1 h with rfl | h
+      · right; left; rfl
+      · right; right; left; exact hex2_digits n hn c h
+  · rename_i hn
+    split at h
+    · rcases List.mem_cons.1 h with rfl | h
+      · left; rfl
+      · rcases List.mem_cons.1 h with rfl | h
+        · right; right; right; exact ⟨Or.inl rfl, by omega⟩
+        · right; right; left; exact hex4_digits n c h
+    · rcases List.mem_cons.1 h with rfl | h
+      · left; rfl
+      · rcases List.mem_cons.1 h with rfl | h
+        · right; right; right; exact ⟨Or.inr rfl, by omega⟩
+        · right; right; left; exact hex8_digits n c h
+
+theorem escNote_ascii (n : Nat) : ∀ c ∈ escNote n, c.toNat < 256 := by
+  intro c hc
+  rcases mem_escNote n c hc with rfl | rfl | ⟨k, hk, rfl⟩ | ⟨rfl | rfl, _⟩
+  · decide
+  · decide
+  · have := hexDigit_ascii k hk; omega
+  · decide
+  · decide
+
+theorem toBytes_cons (c : Char) (s : Str) :
+    toBytes (c :: s) = (if c.toNat < 0x100 then [c] else escNote c.toNat) ++ toBytes s := by
+  simp [toBytes]
+
+theorem toBytes_append (a b : Str) : toBytes (a ++ b) = toBytes a ++ toBytes b := by
+  simp [toBytes]
+
+/-- text below U+0100 is its own Latin-1 byte string -/
+theorem toBytes_small (s : Str) (h : ∀ c ∈ s, c.toNat < 256) : toBytes s = s := by
   induction s with
   | nil => rfl
   | cons c s ih =>
-    have hc : c.toNat < 128 := h c (by simp)
-    have : toBytes (c :: s) = (utf8 c).map Char.ofNat ++ toBytes s := by simp [toBytes]
-    rw [this, ih (fun c' hc' => h c' (by simp [hc']))]
-    simp [utf8, hc, Char.ofNat_toNat]
+    have hc : c.toNat < 256 := h c (by simp)
+    rw [toBytes_cons, ih (fun c' hc' => h c' (by simp [hc'])), if_pos hc]
+    rfl
 
-/-- characters of an escaped value: untouched harmless characters, or `\`, `x`, hex digits -/
-theorem mem_escapeValue (dang v : Str) (c : Char) (h : c ∈ escapeValue dang v) (hv : ∀ a ∈ v, a.toNat < 256) :
-    (c ∈ v ∧ dang.contains c = false) ∨ c = '\\' ∨ c = 'x' ∨ ∃ k, k < 16 ∧ c = hexDigit k := by
+/-- characters of an escaped value: untouched harmless characters, or `\`, `x`, hex digits, or —
+only when a reserved character above U+00FF occurs — `u`, `U` -/
+theorem mem_escapeValue (dang v : Str) (c : Char) (h : c ∈ escapeValue dang v) :
+    (c ∈ v ∧ dang.contains c = false) ∨ c = '\\' ∨ c = 'x' ∨ (∃ k, k < 16 ∧ c = hexDigit k)
+      ∨ ((c = 'u' ∨ c = 'U') ∧ ∃ a ∈ dang, 0x100 ≤ a.toNat) := by
   unfold escapeValue at h
   rw [List.mem_flatMap] at h
   obtain ⟨a, ha, hc⟩ := h
   unfold escChar at hc
   split at hc
-  · have h256 := hv a ha
-    simp only [hex2, h256, if_true, List.mem_cons, List.not_mem_nil, or_false] at hc
-    rcases hc with hc | hc | hc | hc
-    · right; left; exact hc
-    · right; right; left; exact hc
-    · right; right; right; exact ⟨a.toNat / 16, by omega, hc⟩
-    · right; right; right; exact ⟨a.toNat % 16, by omega, hc⟩
+  · rename_i hd
+    rcases mem_escNote a.toNat c hc with h | h | h | ⟨h, hn⟩
+    · right; left; exact h
+    · right; right; left; exact h
+    · right; right; right; left; exact h
+    · right; right; right; right; exact ⟨h, a, by simpa using hd, hn⟩
   · rename_i hnd
     simp only [List.mem_cons, List.not_mem_nil, or_false] at hc
     subst hc
@@ -619,6 +684,14 @@ theorem unescB_plain (f : Nat) (c : Char) (s : Str) (h : c ≠ '\\') :
   rw [unescB.eq_def]
   simp only [ne_eq, h, not_false_eq_true, if_true]
 
+theorem mkChar_toNat (a : Char) : mkChar a.toNat = .ok a := by
+  unfold mkChar
+  have hv := a.valid
+  have hv' : a.toNat < 0xD800 ∨ (0xDFFF < a.toNat ∧ a.toNat < 0x110000) := hv
+  have : ¬ (a.toNat > 0x10FFFF) := by omega
+  have h3 : ¬ (0xD800 ≤ a.toNat ∧ a.toNat ≤ 0xDFFF) := by omega
+  simp only [this, h3, if_false, Char.ofNat_toNat]
+
 theorem unescB_hex (f : Nat) (a : Char) (s : Str) (h256 : a.toNat < 256) :
     unescB (f + 1) ('\\' :: 'x' :: hexDigit (a.toNat / 16) :: hexDigit (a.toNat % 16) :: s)
       = (unescB f s).map (a :: ·) := by
@@ -628,69 +701,145 @@ theorem unescB_hex (f : Nat) (a : Char) (s : Str) (h256 : a.toNat < 256) :
   have ho : isOct 'x' = false := by decide
   have hn : ¬ ('x' = '\n') := by decide
   have hval : (0 * 16 + a.toNat / 16) * 16 + a.toNat % 16 = a.toNat := by omega
-  have hmk : mkChar a.toNat = .ok a := by
-    unfold mkChar
-    have : ¬ (a.toNat > 0x10FFFF) := by omega
-    have h3 : ¬ (0xD800 ≤ a.toNat ∧ a.toNat ≤ 0xDFFF) := by omega
-    simp only [this, h3, if_false, Char.ofNat_toNat]
   rw [unescB.eq_def]
   simp only [ne_eq, not_true_eq_false, if_false, hn, hx, ho, Bool.false_eq_true, true_or, if_true,
-    takeHex, h1, h2, hval, hmk]
+    takeHex, h1, h2, hval, mkChar_toNat]
 
-theorem unescB_escapeValue (dang v : Str) (hb : '\\' ∈ dang) (hv : ∀ a ∈ v, a.toNat < 256) :
-    ∀ fuel, (escapeValue dang v).length ≤ fuel → unescB fuel (escapeValue dang v) = .ok v := by
+theorem unescB_u4 (f : Nat) (a : Char) (s : Str) (h : a.toNat < 0x10000) :
+    unescB (f + 1) ('\\' :: 'u' :: (hex4 a.toNat ++ s)) = (unescB f s).map (a :: ·) := by
+  have h1 := hexDigit_val (a.toNat / 4096 % 16) (Nat.mod_lt _ (by decide))
+  have h2 := hexDigit_val (a.toNat / 256 % 16) (Nat.mod_lt _ (by decide))
+  have h3 := hexDigit_val (a.toNat / 16 % 16) (Nat.mod_lt _ (by decide))
+  have h4 := hexDigit_val (a.toNat % 16) (Nat.mod_lt _ (by decide))
+  have hx : simpleEsc 'u' = none := by decide
+  have ho : isOct 'u' = false := by decide
+  have hn : ¬ ('u' = '\n') := by decide
+  have hux : ¬ ('u' = 'x') := by decide
+  have hval : (((0 * 16 + a.toNat / 4096 % 16) * 16 + a.toNat / 256 % 16) * 16 + a.toNat / 16 % 16) * 16
+      + a.toNat % 16 = a.toNat := by omega
+  rw [unescB.eq_def]
+  simp only [hex4, List.cons_append, List.nil_append, ne_eq, not_true_eq_false, if_false, hn, hx, ho,
+    Bool.false_eq_true, hux, false_or, true_or, if_true, takeHex, h1, h2, h3, h4, hval, mkChar_toNat]
+
+theorem unescB_U8 (f : Nat) (a : Char) (s : Str) :
+    unescB (f + 1) ('\\' :: 'U' :: (hex8 a.toNat ++ s)) = (unescB f s).map (a :: ·) := by
+  have hv : a.toNat < 0xD800 ∨ (0xDFFF < a.toNat ∧ a.toNat < 0x110000) := a.valid
+  have h1 := hexDigit_val (a.toNat / 268435456 % 16) (Nat.mod_lt _ (by decide))
+  have h2 := hexDigit_val (a.toNat / 16777216 % 16) (Nat.mod_lt _ (by decide))
+  have h3 := hexDigit_val (a.toNat / 1048576 % 16) (Nat.mod_lt _ (by decide))
+  have h4 := hexDigit_val (a.toNat / 65536 % 16) (Nat.mod_lt _ (by decide))
+  have h5 := hexDigit_val (a.toNat / 4096 % 16) (Nat.mod_lt _ (by decide))
+  have h6 := hexDigit_val (a.toNat / 256 % 16) (Nat.mod_lt _ (by decide))
+  have h7 := hexDigit_val (a.toNat / 16 % 16) (Nat.mod_lt _ (by decide))
+  have h8 := hexDigit_val (a.toNat % 16) (Nat.mod_lt _ (by decide))
+  have hx : simpleEsc 'U' = none := by decide
+  have ho : isOct 'U' = false := by decide
+  have hn : ¬ ('U' = '\n') := by decide
+  have hux : ¬ ('U' = 'x') := by decide
+  have huu : ¬ ('U' = 'u') := by decide
+  have hval : (((((((0 * 16 + a.toNat / 268435456 % 16) * 16 + a.toNat / 16777216 % 16) * 16
+      + a.toNat / 1048576 % 16) * 16 + a.toNat / 65536 % 16) * 16 + a.toNat / 4096 % 16) * 16
+      + a.toNat / 256 % 16) * 16 + a.toNat / 16 % 16) * 16 + a.toNat % 16 = a.toNat := by omega
+  rw [unescB.eq_def]
+  simp only [hex8, List.cons_append, List.nil_append, ne_eq, not_true_eq_false, if_false, hn, hx, ho,
+    Bool.false_eq_true, hux, huu, or_true, if_true, takeHex, h1, h2, h3, h4, h5, h6, h7, h8,
+    hval, mkChar_toNat]
+
+/-- the decoder reads an escape notation back as the character it spells -/
+theorem unescB_note (f : Nat) (a : Char) (s : Str) :
+    unescB (f + 1) (escNote a.toNat ++ s) = (unescB f s).map (a :: ·) := by
+  unfold escNote
+  split
+  · rename_i h
+    simp only [hex2, List.cons_append, List.nil_append]
+    exact unescB_hex f a s h
+  · split
+    · rename_i h
+      simp only [List.cons_append]
+      exact unescB_u4 f a s h
+    · simp only [List.cons_append]
+      exact unescB_U8 f a s
+
+theorem escNote_length_pos (n : Nat) : 1 ≤ (escNote n).length := by
+  unfold escNote; split
+  · simp
+  · split <;> simp
+
+/-- what `unescape` sees of one character of a value, and that it reads it back -/
+theorem unescB_unit (dang : Str) (hb : '\\' ∈ dang) (a : Char) (f : Nat) (s : Str) :
+    1 ≤ (toBytes (escChar dang a)).length ∧
+      unescB (f + 1) (toBytes (escChar dang a) ++ s) = (unescB f s).map (a :: ·) := by
+  unfold escChar
+  by_cases hd : dang.contains a = true
+  · rw [if_pos hd, toBytes_small _ (escNote_ascii a.toNat)]
+    exact ⟨escNote_length_pos _, unescB_note f a s⟩
+  · rw [if_neg hd]
+    have hne : a ≠ '\\' := by
+      intro h; subst h
+      exact hd (by simpa using hb)
+    rw [toBytes_cons]
+    simp only [toBytes, List.flatMap_nil, List.append_nil]
+    by_cases hs : a.toNat < 0x100
+    · rw [if_pos hs]
+      exact ⟨by simp, unescB_plain f a s hne⟩
+    · rw [if_neg hs]
+      exact ⟨escNote_length_pos _, unescB_note f a s⟩
+
+theorem unescB_escapeValue (dang v : Str) (hb : '\\' ∈ dang) :
+    ∀ fuel, (toBytes (escapeValue dang v)).length ≤ fuel →
+      unescB fuel (toBytes (escapeValue dang v)) = .ok v := by
   induction v with
   | nil => intro fuel _; cases fuel <;> rfl
   | cons a v ih =>
     intro fuel hf
-    have hv' : ∀ b ∈ v, b.toNat < 256 := fun b hb' => hv b (by simp [hb'])
     have hcons : escapeValue dang (a :: v) = escChar dang a ++ escapeValue dang v := by
       simp [escapeValue]
-    rw [hcons] at hf ⊢
-    unfold escChar at hf ⊢
-    by_cases hd : dang.contains a = true
-    · -- reserved character: \xNN
-      have h256 := hv a (by simp)
-      simp only [hd, hex2, h256, if_true, List.cons_append, List.nil_append, List.length_cons] at hf ⊢
-      obtain ⟨f, rfl⟩ : ∃ f, fuel = f + 1 := ⟨fuel - 1, by omega⟩
-      rw [unescB_hex f a _ h256, ih hv' f (by omega)]
-      rfl
-    · have hne : a ≠ '\\' := by
-        intro h; subst h
-        exact hd (by simpa using hb)
-      simp only [hd, Bool.false_eq_true, if_false, List.cons_append, List.nil_append, List.length_cons] at hf ⊢
-      obtain ⟨f, rfl⟩ : ∃ f, fuel = f + 1 := ⟨fuel - 1, by omega⟩
-      rw [unescB_plain f a _ hne, ih hv' f (by omega)]
-      rfl
+    rw [hcons, toBytes_append] at hf ⊢
+    obtain ⟨hpos, hstep⟩ := unescB_unit dang hb a (fuel - 1) (toBytes (escapeValue dang v))
+    rw [List.length_append] at hf
+    obtain ⟨f, rfl⟩ : ∃ f, fuel = f + 1 := ⟨fuel - 1, by omega⟩
+    simp only [Nat.add_sub_cancel] at hstep
+    rw [hstep, ih f (by omega)]
+    rfl
 
-theorem escapeValue_ascii (dang v : Str) (hv : ∀ a ∈ v, a.toNat < 128) :
-    ∀ c ∈ escapeValue dang v, c.toNat < 128 := by
-  intro c hc
-  rcases mem_escapeValue dang v c hc (fun a ha => by have := hv a ha; omega) with h | h | h | ⟨k, hk, h⟩
-  · exact hv c h.1
-  · subst h; decide
-  · subst h; decide
-  · subst h; exact hexDigit_ascii k hk
-
-/-- `unescape(escape(v)) = v` for ASCII text -/
-theorem unescape_escapeValue (dang v : Str) (hb : '\\' ∈ dang) (hv : ∀ a ∈ v, a.toNat < 128) :
+/-- `unescape(escape(v)) = v` for every text (fix C17-e) -/
+theorem unescape_escapeValue (dang v : Str) (hb : '\\' ∈ dang) :
     unescape (escapeValue dang v) = .ok v := by
   unfold unescape
-  simp only [toBytes_ascii _ (escapeValue_ascii dang v hv)]
-  exact unescB_escapeValue dang v hb (fun a ha => by have := hv a ha; omega) _ (Nat.le_refl _)
+  exact unescB_escapeValue dang v hb _ (Nat.le_refl _)
 
-/-- an escaped value contains no character of a safe separator that is reserved -/
+/-- an escaped value contains no character of a safe separator that is reserved; when a reserved
+character above U+00FF exists the notation `\uNNNN` / `\UNNNNNNNN` appears, so the separator must
+then contain neither `u` nor `U` -/
 theorem escapeValue_clean (dang sep v : Str) (hs : SafeSep sep) (hsub : ∀ c ∈ sep, c ∈ dang)
-    (hv : ∀ a ∈ v, a.toNat < 256) : Clean sep (escapeValue dang v) := by
+    (hu : (∀ a ∈ dang, a.toNat < 0x100) ∨ (∀ c ∈ sep, c ≠ 'u' ∧ c ≠ 'U')) :
+    Clean sep (escapeValue dang v) := by
   intro c hc hcs
   obtain ⟨h1, h2, h3⟩ := hs c hcs
-  rcases mem_escapeValue dang v c hc hv with h | h | h | ⟨k, hk, h⟩
+  rcases mem_escapeValue dang v c hc with h | h | h | ⟨k, hk, h⟩ | ⟨h, a, ha, hn⟩
   · have := hsub c hcs
     have h' : dang.contains c = true := by simpa using this
     rw [h.2] at h'; cases h'
   · exact h1 h
   · exact h2 h
   · subst h; rw [hexDigit_lower k hk] at h3; cases h3
+  · rcases hu with hu | hu
+    · have := hu a ha; omega
+    · rcases h with h | h
+      · exact (hu c hcs).1 h
+      · exact (hu c hcs).2 h
+
+theorem wideOk_dangerous (d eq sep : Str) (hw : WideOk d eq) (hsub : ∀ c ∈ sep, c ∈ d ++ eq) :
+    (∀ a ∈ dangerous d eq, a.toNat < 0x100) ∨ (∀ c ∈ sep, c ≠ 'u' ∧ c ≠ 'U') := by
+  rcases hw with hw | hw
+  · left
+    intro a ha
+    simp only [dangerous, List.append_assoc, List.mem_append, List.mem_cons, List.not_mem_nil, or_false] at ha
+    rcases ha with (rfl | rfl | rfl | rfl | rfl | rfl) | ha | ha
+    all_goals first | decide | exact hw a (by simp [ha])
+  · right
+    intro c hc
+    exact hw c (hsub c hc)
 
 /-! ### flat mappings -/
 
